@@ -75,8 +75,11 @@ impl Mesh {
             let local = point - prj.point;
             let triangle = self.shape.triangle(id);
             if let Some(normal) = triangle.normal() {
+                // A point that lies on the surface to within rounding error has no meaningful offset
+                // direction (the angle of pure noise is arbitrary), so it always passes the angle test
+                let on_surface = local.norm() <= 1.0e-12 * point.coords.amax().max(1.0);
                 let angle = normal.angle(&local).abs();
-                if angle < max_angle || angle > PI - max_angle {
+                if on_surface || angle < max_angle || angle > PI - max_angle {
                     Some((prj, id, loc))
                 } else {
                     None
